@@ -216,6 +216,36 @@ def contracts(reg):
                                                                  ext_ty=None, exc_val=None, tb=None)),
                          requires=[WFM, "valid_units('%s', self.units_backup)" % ut], ensures=ens_exit))
 
+    # ---- a user of the contexts: the rotating-wave reference energies are stored in internal units whatever the ------------
+    # ---- units current at the call (the reads of the managed data must happen inside the internal-units context) ----------
+    HM = "quantarhei/qm/hilbertspace/hamiltonian.py::"
+
+    def setup_rwa(S, units):
+        cur = {"energy": units, "frequency": "1/fs", "dipolemoment": "Debye", "temperature": "Kelvin", "time": "fs",
+               "length": "A"}
+        m = S.obj(MGR + "Manager", label="mgr", current_units=cur, _saved_units={}, _in_eu_count=0,
+                  _in_energy_units_context=False, basis_stack=[0], basis_transformations=[1], basis_registered={},
+                  warn_about_basis_change=False, warn_about_basis_changing_objects=False, _in_eigenbasis_of_context=False,
+                  current_basis_operator=None, _enforce_contexts=True)
+        S.singleton("Manager", m)
+        n = S.int("N")
+        H = S.array("Hint", (n, n), "real")
+        me = S.obj(HM + "Hamiltonian", label="self", _data=H, _current_basis=0, is_basis_protected=False, dim=n, name="",
+                   has_rwa=False)
+        return dict(self=me, rwa_indices=[0, 1], N=n, Hint=H, mgr=m)
+    for units in ("int", "1/cm", "eV"):
+        reg.add(Contract(HM + "Hamiltonian.set_rwa#called-in-" + units.replace("/", "-per-"), setup=(lambda S, u=units: setup_rwa(S, u)),
+                         requires=["N >= 2"],
+                         ensures=[("ground-block-reference-is-its-internal-energy", "self.rwa_energies[0] == Hint[0,0]"),
+                                  ("excited-block-reference-is-the-mean-internal-energy",
+                                   "forall(i, range(1, N), self.rwa_energies[i]*(N - 1) == Sum(j, range(1, N), Hint[j,j]))"),
+                                  ("callers-units-restored", "mgr.current_units['energy'] == '%s'" % units),
+                                  ("flag", "self.has_rwa")],
+                         loops={1: dict(inv=["en_block[block] == Sum(j, range(1, _i), Hint[j,j])", "k == _i - 1",
+                                             "en_block[0] == Hint[0,0]"], modifies=["en_block"]),
+                                2: dict(inv=["forall(i, range(1, _i), self.rwa_energies[i]*(N - 1) == Sum(j, range(1, N), Hint[j,j]))",
+                                             "self.rwa_energies[0] == Hint[0,0]"], modifies=["self.rwa_energies"])}))
+
     # ---- conversions -------------------------------------------------------------------------------
     def setup_conv(S, arr):
         m = mk_manager(S)
@@ -478,6 +508,13 @@ def plan(ctx):
     p.functions = [MGR + f for f in fns] + [
         TYP + "units_managed_property.<locals>.prop", TYP + "units_managed_property.<locals>.prop~1",
         TYP + "units_managed_array_property.<locals>.prop", TYP + "units_managed_array_property.<locals>.prop~1"]
+    for q_ in list(ctx.registry.contracts):
+        if "Manager.convert_energy_2_" in q_ or "energy_units.__" in q_:
+            # the proof of set_rwa executes the real conversion / context code (arrays of any rank); every other proof
+            # keeps using the contracts
+            ctx.registry.contracts[q_].inline = (lambda under: bool(under) and under.endswith("Hamiltonian.set_rwa"))
+    p.functions += ["quantarhei/qm/hilbertspace/hamiltonian.py::Hamiltonian.set_rwa#called-in-" + u
+                    for u in ("int", "1-per-cm", "eV")]
     p.lemmas = [lemma_roundtrip, lemma_table, lemma_with_rule]
     p.extra_axioms = const_axioms()
     p.bounded = []
